@@ -177,6 +177,7 @@ func (r *Result) add(k string, n int) {
 		r.Counters[k] += n
 	}
 }
+
 // curRoot is the sandbox root; it is erased from event logs so that logs of
 // the same execution in different sandboxes are byte-identical.
 var curRoot string
